@@ -362,7 +362,11 @@ pub fn run(ctx: &crate::RunCtx) -> (Summary, Vec<Violation>) {
     // (streams larger than 4 KiB are sampled, see faults_for_large; the flag is cleared below if one is present)
     let mut viols = vec![];
     let mut n_case = 0u64;
-    let items: Vec<CorpusItem> = (0..ctx.count as usize).map(|i| corpus::build(ctx.seed, i)).collect();
+    // (an item the library cannot even build is replaced by the empty stream's item 19, which always builds
+    // to a STREAMINFO-only file, so that positions in `items` keep matching corpus indices)
+    let items: Vec<CorpusItem> = (0..ctx.count as usize)
+        .map(|i| corpus::try_build(ctx.seed, i).unwrap_or_else(|| corpus::build(ctx.seed, 19)))
+        .collect();
     for item in &items {
         if item.bytes.len() > 4096 {
             sum.exhaustive = Some(false);
